@@ -1,18 +1,24 @@
 #!/venv/bin/python
 """Differential test of coq/theories/Model/Account.v against the real pycdlib.
 
-Generates a random edit history (add_fp / add_directory / rm_file / rm_directory, valid and
-invalid), runs it against /repo/pycdlib, records after every operation
+Runs edit histories (add_fp / add_directory / rm_file / rm_directory, valid and invalid) against
+/repo/pycdlib and records after every operation
 
     accepted?, pvd.space_size, pvd.path_tbl_size, pvd.path_table_num_extents,
     sum of directory data_lengths, len(iso.inodes), end of the extents assigned by
     _reshuffle_extents (max over directories and inodes of extent + blocks)
 
-and emits a Coq file whose only Example states that Account.run_probe / run_flags / run_ends
-compute exactly these numbers; the Example is closed by vm_compute.
+and emits a Coq file with one Example per history stating that Account.run_probe / run_flags /
+run_ends compute exactly these numbers (and that space = layout_end after every operation); the
+Examples are closed by vm_compute.
 
-usage:  PYTHONPATH=/repo /venv/bin/python /verif/tools/account_traces.py SEED NOPS OUT.v [NAME]
-check:  cd /verif/coq && coqc -q -Q theories PV OUT.v
+usage:  PYTHONPATH=/repo /venv/bin/python /verif/tools/account_traces.py OUT.v SPEC [SPEC ...]
+        SPEC = scenario | ptr_scenario | SEED:NOPS        (random history from SEED with NOPS operations)
+check:  cd /verif/coq && coqc -q -Q theories PV -Q <dir of OUT.v> Tmp OUT.v
+        (for theories/Proofs/AccountTraces.v:  coqc -q -Q theories PV theories/Proofs/AccountTraces.v)
+
+theories/Proofs/AccountTraces.v was produced by
+    account_traces.py /verif/coq/theories/Proofs/AccountTraces.v scenario ptr_scenario 1:25 2:30 4:25 7:30 9:30
 """
 import collections
 import io
@@ -41,7 +47,7 @@ def probe(iso):
         for c in d.children[2:]:
             if c.is_dir():
                 q.append(c)
-    iso._reshuffle_extents()  # what write_fp()/force_consistency() would do
+    iso._reshuffle_extents()  # what write_fp() / force_consistency() would do
     end = 16 + 1 + 1 + 1 + 2 * iso.pvd.path_table_num_extents
     for d in dirs:
         end = max(end, d.extent_location() + cdiv(d.data_length, BLOCK))
@@ -58,6 +64,70 @@ def coq_bytes(b):
 
 def coq_path(comps):
     return '[' + '; '.join(coq_bytes(c) for c in comps) + ']'
+
+
+def iso_path(comps):
+    return '/' + '/'.join(x.decode() for x in comps)
+
+
+class Runner:
+    """Executes operations against pycdlib and records what the Coq model must reproduce."""
+
+    def __init__(self):
+        self.iso = pycdlib.PyCdlib()
+        self.iso.new(interchange_level=3)
+        self.first, self.first_end = probe(self.iso)
+        self.ops, self.probes, self.flags, self.ends = [], [], [], []
+
+    def do(self, op):
+        kind = op[0]
+        if kind == 'AddFile':
+            _, d, nm, ln = op
+            self.ops.append('AddFile %s %s (%d)' % (coq_path(d), coq_bytes(nm), ln))
+
+            def call():
+                self.iso.add_fp(io.BytesIO(b''), ln, iso_path(d + (nm,)))
+        elif kind == 'AddDir':
+            _, d, nm = op
+            self.ops.append('AddDir %s %s' % (coq_path(d), coq_bytes(nm)))
+
+            def call():
+                self.iso.add_directory(iso_path(d + (nm,)))
+        elif kind == 'RmFile':
+            _, d, nm = op
+            self.ops.append('RmFile %s %s' % (coq_path(d), coq_bytes(nm)))
+
+            def call():
+                self.iso.rm_file(iso_path(d + (nm,)))
+        else:
+            _, p = op
+            self.ops.append('RmDir %s' % coq_path(p))
+
+            def call():
+                self.iso.rm_directory(iso_path(p))
+        try:
+            call()
+            ok = True
+        except pycdlibexception.PyCdlibInvalidInput:
+            ok = False
+        pr, end = probe(self.iso)
+        self.probes.append(pr)
+        self.flags.append(ok)
+        self.ends.append(end)
+        return ok
+
+    def emit(self, f, name, comment):
+        f.write('(* %s *)\n' % comment)
+        f.write('Definition %s_ops : list op :=\n  [%s].\n\n' % (name, ';\n   '.join(self.ops)))
+        f.write('Example %s :\n  probe init = %s /\\ layout_end init = %d /\\\n'
+                % (name, coq_bytes(self.first), self.first_end))
+        f.write('  run_probe %s_ops =\n  [%s] /\\\n' % (name, ';\n   '.join(coq_bytes(p) for p in self.probes)))
+        f.write('  run_flags %s_ops =\n  [%s] /\\\n' % (name, '; '.join('true' if b else 'false' for b in self.flags)))
+        f.write('  map snd (run_ends %s_ops) =\n  %s /\\\n' % (name, coq_bytes(self.ends)))
+        f.write('  forallb (fun p => fst p =? snd p) (run_ends %s_ops) = true.\n' % name)
+        f.write('Proof. vm_compute. repeat split; reflexivity. Qed.\n\n')
+        print('%s: %d ops, %d accepted, final %s end %d'
+              % (name, len(self.ops), sum(self.flags), self.probes[-1], self.ends[-1]))
 
 
 def gen_name(rng, isdir, long_names):
@@ -82,25 +152,12 @@ def gen_name(rng, isdir, long_names):
     return base
 
 
-def main():
-    seed = int(sys.argv[1])
-    nops = int(sys.argv[2])
-    out = sys.argv[3]
-    name = sys.argv[4] if len(sys.argv) > 4 else 'trace_%d' % seed
+def random_history(run, seed, nops):
     rng = random.Random(seed)
     long_names = (seed % 3 == 1)      # long names make directories overflow a block quickly
     many_dirs = (seed % 3 == 2)       # many directories make the path table cross 4096 bytes
-
-    iso = pycdlib.PyCdlib()
-    iso.new(interchange_level=3)
-    first, first_end = probe(iso)
-
-    dirs = [()]           # known directories (tuples of components)
-    files = []            # known files (dir tuple, name)
-    ops = []
-    probes = []
-    flags = []
-    ends = []
+    dirs = [()]                       # known directories (tuples of components)
+    files = []                        # known files (dir tuple, name)
     for _ in range(nops):
         r = rng.random()
         if many_dirs:
@@ -116,24 +173,16 @@ def main():
             ln = rng.choice([0, 1, 5, 2047, 2048, 2049, 4096, 100000, 4294965248])
             if ln > 10**6:
                 ln = rng.choice([ln, 7, 3000])
-            ops.append('AddFile %s %s %s' % (coq_path(d), coq_bytes(nm), '(%d)' % ln))
-            path = '/' + '/'.join(x.decode() for x in d + (nm,))
-
-            def call(path=path, ln=ln):
-                iso.add_fp(io.BytesIO(b''), ln, path)
-            key = ('f', d, nm)
+            if run.do(('AddFile', d, nm, ln)):
+                files.append((d, nm))
         elif kind == 'adddir':
             d = rng.choice(dirs) if not bogus else rng.choice(dirs) + (b'NOPE',)
             nm = gen_name(rng, True, long_names or many_dirs)
             if rng.random() < 0.08 and len(dirs) > 1:
                 dd = rng.choice(dirs[1:])
                 d, nm = dd[:-1], dd[-1]           # duplicate
-            ops.append('AddDir %s %s' % (coq_path(d), coq_bytes(nm)))
-            path = '/' + '/'.join(x.decode() for x in d + (nm,))
-
-            def call(path=path):
-                iso.add_directory(path)
-            key = ('d', d, nm)
+            if run.do(('AddDir', d, nm)):
+                dirs.append(d + (nm,))
         elif kind == 'rmfile':
             if files and not bogus:
                 d, nm = rng.choice(files)
@@ -142,12 +191,8 @@ def main():
                 d, nm = dd[:-1], dd[-1]           # a directory: refused
             else:
                 d, nm = rng.choice(dirs), b'MISSING'
-            ops.append('RmFile %s %s' % (coq_path(d), coq_bytes(nm)))
-            path = '/' + '/'.join(x.decode() for x in d + (nm,))
-
-            def call(path=path):
-                iso.rm_file(path)
-            key = ('rf', d, nm)
+            if run.do(('RmFile', d, nm)):
+                files.remove((d, nm))
         else:
             if rng.random() < 0.05:
                 p = ()
@@ -158,43 +203,80 @@ def main():
                 p = rng.choice(dirs) + (b'MISSING',)
             else:
                 p = rng.choice(dirs[1:])
-            ops.append('RmDir %s' % coq_path(p))
-            path = '/' + '/'.join(x.decode() for x in p)
+            if run.do(('RmDir', p)):
+                dirs.remove(p)
 
-            def call(path=path):
-                iso.rm_directory(path)
-            key = ('rd', p[:-1], p[-1] if p else b'')
-        try:
-            call()
-            ok = True
-        except pycdlibexception.PyCdlibInvalidInput:
-            ok = False
-        if ok:
-            if key[0] == 'f':
-                files.append((key[1], key[2]))
-            elif key[0] == 'd':
-                dirs.append(key[1] + (key[2],))
-            elif key[0] == 'rf':
-                files.remove((key[1], key[2]))
-            else:
-                dirs.remove(key[1] + (key[2],))
-        pr, end = probe(iso)
-        probes.append(pr)
-        flags.append(ok)
-        ends.append(end)
 
+def scenario(run):
+    """A fixed history: the root directory grows past one block (9th record of 234 bytes),
+    a sub-tree is built, refused operations are interleaved, everything is removed again."""
+    def long_name(i):
+        return b'N' * 199 + bytes([65 + i]) + b';1'      # 202 bytes -> dr_len 236
+    lens = [0, 1, 2047, 2048, 2049, 5000, 4096, 7, 100000, 3, 12345, 0]
+    for i in range(12):
+        run.do(('AddFile', (), long_name(i), lens[i]))
+    run.do(('AddFile', (), long_name(3), 9))              # duplicate: refused
+    run.do(('AddDir', (), b'D'))
+    run.do(('AddDir', (b'D',), b'E'))
+    run.do(('AddDir', (b'D', b'X'), b'E'))                # missing parent: refused
+    run.do(('AddFile', (b'D', b'E'), b'X.TXT;1', 7))
+    run.do(('AddFile', (b'D', b'E'), b'x.txt;1', 7))      # invalid characters: refused
+    run.do(('AddFile', (b'D',), b'A' * 222, 1))           # dr_len 256: refused
+    run.do(('AddFile', (b'D',), b'A' * 221, 1))           # dr_len 254: accepted
+    run.do(('AddDir', (b'D',), b'B' * 208))               # > 207: refused
+    run.do(('AddDir', (b'D',), b'B' * 207))
+    run.do(('RmDir', (b'D',)))                            # not empty: refused
+    run.do(('RmFile', (b'D',), b'E'))                     # a directory: refused
+    run.do(('RmDir', ()))                                 # the root: refused
+    for i in [0, 5, 11, 2, 8, 3, 7]:
+        run.do(('RmFile', (), long_name(i)))
+    run.do(('RmFile', (), long_name(3)))                  # already removed: refused
+    run.do(('RmFile', (b'D', b'E'), b'X.TXT;1'))
+    run.do(('RmDir', (b'D', b'E')))
+    run.do(('RmFile', (b'D',), b'A' * 221))
+    run.do(('RmDir', (b'D', b'B' * 207)))
+    run.do(('RmDir', (b'D',)))
+    for i in [1, 4, 6, 9, 10]:
+        run.do(('RmFile', (), long_name(i)))
+
+
+def ptr_scenario(run):
+    """20 directories with 207-byte names: the path table (10 + 216 per directory) crosses 4096
+    bytes at the 19th, so path_table_num_extents goes 2 -> 4 (4 more blocks) and back."""
+    def dname(i):
+        return b'D' * 206 + bytes([65 + i])
+    for i in range(20):
+        run.do(('AddDir', (), dname(i)))
+    run.do(('AddFile', (dname(19),), b'F;1', 2049))
+    run.do(('RmDir', (dname(19),)))                       # not empty: refused
+    run.do(('RmFile', (dname(19),), b'F;1'))
+    for i in [19, 0, 7, 18, 3]:
+        run.do(('RmDir', (dname(i),)))
+
+
+def main():
+    out = sys.argv[1]
+    specs = sys.argv[2:]
     with open(out, 'w') as f:
-        f.write('(* GENERATED by /verif/tools/account_traces.py %d %d: pycdlib vs Model/Account.v *)\n' % (seed, nops))
+        f.write('(* GENERATED by /verif/tools/account_traces.py %s\n' % ' '.join(specs))
+        f.write('   Each Example states what the real pycdlib (/repo) computed after every operation of an\n')
+        f.write('   edit history: probe = [pvd.space_size; pvd.path_tbl_size; pvd.path_table_num_extents;\n')
+        f.write('   sum of directory data_lengths; len(inodes)], accepted?, and the end of the extents\n')
+        f.write('   assigned by _reshuffle_extents; Model/Account.v reproduces them by vm_compute. *)\n')
         f.write('From Coq Require Import ZArith List Bool.\nFrom PV.Model Require Import Account.\n')
         f.write('Import ListNotations.\nLocal Open Scope Z_scope.\n\n')
-        f.write('Definition %s_ops : list op :=\n  [%s].\n\n' % (name, ';\n   '.join(ops)))
-        f.write('(* fresh image: %s, end of layout %d *)\n' % (first, first_end))
-        f.write('Example %s :\n  probe init = %s /\\ layout_end init = %d /\\\n' % (name, coq_bytes(first), first_end))
-        f.write('  run_probe %s_ops =\n  [%s] /\\\n' % (name, ';\n   '.join(coq_bytes(p) for p in probes)))
-        f.write('  run_flags %s_ops =\n  [%s] /\\\n' % (name, '; '.join('true' if b else 'false' for b in flags)))
-        f.write('  map snd (run_ends %s_ops) =\n  %s.\n' % (name, coq_bytes(ends)))
-        f.write('Proof. vm_compute. repeat split; reflexivity. Qed.\n')
-    print('%s: %d ops, %d accepted, final %s end %d' % (name, nops, sum(flags), probes[-1], ends[-1]))
+        for spec in specs:
+            run = Runner()
+            if spec == 'ptr_scenario':
+                ptr_scenario(run)
+                run.emit(f, 'ptr_scenario', 'fixed scenario: the path table crosses 4096 bytes and comes back')
+            elif spec == 'scenario':
+                scenario(run)
+                run.emit(f, 'scenario', 'fixed scenario: root directory grows to 2 blocks and shrinks back')
+            else:
+                seed, nops = (int(x) for x in spec.split(':'))
+                random_history(run, seed, nops)
+                run.emit(f, 'trace_%d' % seed, 'random history, seed %d, %d operations' % (seed, nops))
 
 
 if __name__ == '__main__':
